@@ -464,3 +464,64 @@ func VH_C06_X1_two_kills() {
 	// ---- run 4
 	cm.recoverAndCheck(s, snap2, durable2, true, "", false)
 }
+
+// staleTail reports the F21 situation in a snapshot: no tree dump survives and some data file
+// holds, behind a newer record of a key, an older record of the same key.
+func staleTail(snap string, nChunks int) bool {
+	dumps, _ := filepath.Glob(snap + "/*.idx.hash")
+	if len(dumps) > 0 {
+		return false
+	}
+	stale := false
+	for c := 0; c < nChunks; c++ {
+		recs, _ := scanFile(genDataPath(snap, c))
+		for i := range recs {
+			for j := i + 1; j < len(recs); j++ {
+				if recs[i].key == recs[j].key && abs32(recs[j].ver) < abs32(recs[i].ver) {
+					stale = true
+				}
+			}
+		}
+	}
+	return stale
+}
+
+// C07-X2c: kill inside a pass whose destination is an earlier short file and whose sources are
+// mostly live: the destination fills in the middle of a source file and the pass goes on
+// rewriting that source in place (gc:dst-switch). Snapshot at every GC control point x
+// occurrence 0..5, with per-file hint files on disk when the pass starts (clean restart first)
+// or only those the pass itself dumps; after restart every key reads its pre-GC value.
+func VH_C07_X2_kill_dst_switch() {
+	s := newScen(768, false, "ka", "kb", "kc", "kd", "ke", "kf", "kg")
+	s.setS("ka") // file0, left short (1 or 2 records) by the restart below
+	if vrt.Bool("two-in-file0") {
+		s.setS("kg")
+	}
+	s.reopen(0)
+	s.setS("kb")
+	s.setS("kc")
+	s.setS("kd") // file1: all live
+	s.setS("ke")
+	s.setS("kf")
+	if vrt.Bool("file2-has-garbage") {
+		s.setS("ka") // supersedes ka@0
+	} else {
+		s.setS("kg")
+	} // file2
+	s.setS("kg") // head
+	s.flush()
+	if vrt.Bool("clean-restart-before-gc") {
+		s.reopen(0) // every chunk now has dumped hint files and a tree dump exists
+	}
+	point := gcCrashPoints[vrt.Choice("point", len(gcCrashPoints))]
+	occ := vrt.Choice("occurrence", 6)
+	var snap string
+	done := atPoint(point, occ, func() { snap = vrt.SnapshotDir(s.dir) })
+	s.gc(1, 2, vrt.Bool("merge"))
+	vrt.Assume(done())
+	stale := staleTail(snap, 6)
+	Conf.Home = snap
+	s.open()
+	s.checkAllKnown("after-kill-and-restart", "F21", stale)
+	s.st.Close()
+}
